@@ -12,6 +12,7 @@ Inductive mop :=
 | MBranch (k : bytes)
 | MCalcRoot (k : bytes)        (* calc_root(k, get(k), branch(k)) *)
 | MFromDbGet (k : bytes)       (* from_db(db, root, key_size, default).get(k) *)
+| MReopen                       (* continue with from_db(db, root, key_size, default) as the tree *)
 | MRoot.
 
 Definition K := keccak256.
@@ -41,6 +42,11 @@ Definition mstep (t : smt) (o : mop) : smt * obs :=
           | Ok t2 => res_obs OB (smt_get t2 k)
           | Err e => exn_obs e
           end)
+  | MReopen =>
+      match smt_from_db K (s_db t) (s_root t) (s_keysize t) (s_default t) with
+      | Ok t2 => (t2, ONone)
+      | Err e => (t, exn_obs e)
+      end
   | MRoot => (t, OB (s_root t))
   end.
 
